@@ -70,8 +70,7 @@ def sequences_on_transformer(check, P):
                     check.ok(rid, f"{label}: {msg}")
                 else:
                     check.violation(rid, f"{label}:{key}", f"sequence '{label}': {msg}", [decisions_text(path)])
-        if completed == 0:
-            raise AnalysisError(f"C13: sequence '{label}' has no completing abstract path")
+        check.floor(not (completed == 0), f"C13: sequence '{label}' has no completing abstract path")
 
     def call(I, meth, *args, **kw):
         return W.call_method(I, "xf", meth, args, kw)
@@ -224,8 +223,7 @@ def context_managers(check, P):
                     check.violation("R3", f"{cm_name}:{body_kind}:stack", f"{label}: the stack on exit has {len(after[1]) if after[1] != 'opaque' else '?'} entries {after[1]}, on entry {before[1]}", [decisions_text(path)])
                 if cm_name == "named_transform" and inside != before[0]:
                     pass   # inside the body the named state 'a' is active; saved right before, so equal mapping is expected
-            if done == 0:
-                raise AnalysisError(f"C13.R3: {cm_name} ({body_kind}) has no completing path")
+            check.floor(not (done == 0), f"C13.R3: {cm_name} ({body_kind}) has no completing path")
     return n
 
 
